@@ -150,3 +150,9 @@ fn c06_mpsc_thread_recv_vs_sends_and_drop_d1() {
         kani::cover!(disconnected && np::PREEMPTS >= 2, "sender operations landed inside recv");
     }
 }
+
+/// crate-visible access to the Blocker token for harnesses outside `crate::sync` (the module
+/// `sync::blocking` is private; `sync::mpsc` is public)
+pub fn blocker_token_pub(b: &Blocker) -> *mut usize {
+    crate::sync::blocking::verif_kani::blocker_token(b)
+}
